@@ -463,7 +463,7 @@ static bool may_fuse(Token *prev, Token *tok) {
 
   if (is_word_char(a) && is_word_char(b))
     return true;
-  if (is_num && (b == '.' || (strchr("eEpP", a) && (b == '+' || b == '-'))))
+  if (is_num && (b == '.' || is_word_char(b) || (strchr("eEpP", a) && (b == '+' || b == '-'))))
     return true;
   if ((prev->kind == TK_IDENT || prev->kind == TK_KEYWORD) && (b == '"' || b == '\''))
     return true;
